@@ -53,6 +53,10 @@ Judge(ev) ==
                      <<"P:C03:ref-frame", m1 = m0>>,
                      <<"P:C03:ref-aliases", ev.resid = IdAt(root, a.pt)>>,
                      <<"S:post-conform", post = Apply(st, B.depth, a).tree>> >>)
+       [] a.op = "hwrite" /\ B.steps[a.h].resid # IdAt(last.root, a.pt) ->
+            \* the handle is stale: a fiber assignment / clear since step a.h replaced the payload object it referred to.  The property speaks
+            \* about handles that alias the STORED payload; a write through a stale one must simply leave the tree alone.
+            Fails(<< <<"S:stale-handle-frame", m1 = m0>> >>)
        [] a.op \in {"write", "hwrite"} ->
             Fails(<< <<"P:C03:write-visible", m1 = Override(m0, a.pt, WriteVal(a.kind, MapGet(m0, a.pt), a.v))>>,
                      <<"P:C03:ref-creates-path", Stored(post) = Stored(st) \cup Prefixes(a.pt)>>,
